@@ -989,6 +989,10 @@ func (p *parser) scanGroupOpen() (*RegexNode, error) {
 
 	p.moveRight(1)
 
+	// the paren that had to be ignored (the condition of an alternation construct) is this one:
+	// it is not a plain capture, so a later plain "(" must capture again (as countCaptures assumes)
+	p.ignoreNextParen = false
+
 	for p.charsRight() > 0 {
 		switch ch = p.moveRightGetChar(); ch {
 		case ':':
